@@ -79,12 +79,17 @@ func (n *InfluxQLNode) MarshalJSON() ([]byte, error) {
 			ID:   n.ID(),
 		},
 		Alias: (*Alias)(n),
-		Args:  n.Args,
 	}
-	for i, arg := range raw.Args {
+	// The durations are written as strings: convert a copy, the node keeps its arguments.
+	if n.Args != nil {
+		raw.Args = make([]interface{}, len(n.Args))
+	}
+	for i, arg := range n.Args {
 		switch dur := arg.(type) {
 		case time.Duration:
 			raw.Args[i] = influxql.FormatDuration(dur)
+		default:
+			raw.Args[i] = arg
 		}
 	}
 	return json.Marshal(raw)
